@@ -728,7 +728,9 @@ class BacktrackingOr(ValuePattern):
             [v.clone(node_map) for v in self._values],
             self.name,
             self._tag_var,
-            self._tag_values,
+            # Without a tag variable _tag_values holds the defaulted (0, 1, ...): passing it on
+            # would be rejected by the constructor.
+            self._tag_values if self._tag_var is not None else None,
         )
 
 
